@@ -414,6 +414,34 @@ def _returns_kind(repo, g, fi, depth=0, seen=None):
     return "data" if "data" in kinds else None if None in kinds else "immutable"
 
 
+COPYING_CALLS = {"dict", "list", "tuple", "set", "frozenset", "sorted", "copy.copy", "copy.deepcopy", "deepcopy", "OrderedDict"}
+
+
+def _every_use_copies(repo, fi, what):
+    """is every call of the memoised name in the package the direct argument of a copying call (dict(...), list(...), copy.deepcopy(...),
+    `.copy()` on the result, `{**f(x)}`, `f(x) | other`)?"""
+    names = {fi.qualname.rsplit(".", 1)[-1]}
+    if " = " in what:
+        names.add(what.split(":", 1)[1].split(" = ", 1)[0].strip())
+    uses = copied = 0
+    for m in repo.modules.values():
+        if ".tests" in m.name:
+            continue
+        for n in ast.walk(m.tree):
+            if isinstance(n, ast.Call) and ((isinstance(n.func, ast.Name) and n.func.id in names) or (isinstance(n.func, ast.Attribute) and n.func.attr in names)):
+                uses += 1
+                up = getattr(n, "_parent", None)
+                if isinstance(up, ast.Call) and n in up.args and norm(up.func) in COPYING_CALLS:
+                    copied += 1
+                elif isinstance(up, ast.Attribute) and up.attr == "copy" and isinstance(getattr(up, "_parent", None), ast.Call):
+                    copied += 1
+                elif isinstance(up, ast.Dict) and None in up.keys:
+                    copied += 1
+                elif isinstance(up, ast.BinOp) and isinstance(up.op, ast.BitOr):
+                    copied += 1
+    return uses > 0 and copied == uses
+
+
 def memo_verdict(op, fi, what):
     """a memoised function on the open path -> ('safe' | 'unsafe' | 'unknown', why).  Safe: nothing it reaches reads the file system or
     module state that is written at call time, and what it returns is immutable.  Unsafe: it reads files (the memo never sees them
@@ -449,6 +477,8 @@ def memo_verdict(op, fi, what):
     kind = _returns_kind(repo, g, fi)
     if kind == "immutable":
         return "safe", f"{what}: reads nothing but its arguments, returns an immutable value"
+    if kind == "data" and _every_use_copies(repo, fi, what):
+        return "unknown", f"{what} returns a container it builds, and every use of it in the package copies the result first: whether the copy goes deep enough is not decided"
     if kind == "data":
         return "unsafe", f"{what} returns a dict / list / array / group that it builds: every caller with the same arguments gets the same object, what one open (or its user) changes in it is there for the next"
     return "unknown", f"{what}: whether what it returns can be shared between calls is not decided"
